@@ -57,120 +57,8 @@ func C07(p *core.Program, r *core.Report) {
 	r.Explanation = "N1 (balanced placeholders): all decision paths of the converter's element visitor are enumerated with the start-tag emission as an event; a path that emits a start tag may only end in `return false` if it is conditioned on a tag that CanBeNested rejects (so for nestable tags the exit handler always runs); start and end emission are both guarded by CanBeNested(TagName(node)) and carry TagName(node); node.Data is only rewritten to non-nestable constants on non-nestable tags. N3: one iteration of NestedElementRetainer.Process is extracted as a transition function: any non-tag element contributes its content flag, a start tag records and resets the flag, an end tag marks both tags alike. N2: data tables are cloned and serialised as one unit from a clone that is append-only collected (no pruning after collection) and text rooted at a nestable element returns InnerHTML."
 	r.NotCovered = "the integer stack/stackMark arithmetic of the retainer for nested pairs (only its boolean part and the pairing of SetIsContent calls are decided); the HTML parser re-nesting the emitted string; partial-list semantics."
 
-	nest := nestableTags(p, r, "N1")
-	if nest == nil {
+	if !checkPlaceholderBalance(p, r, "N1") {
 		return
-	}
-	var ntags []string
-	for t := range nest {
-		ntags = append(ntags, t)
-	}
-	sort.Strings(ntags)
-	r.Add("N1", "nestable tag set", "", sameSet(ntags, []string{"blockquote", "li", "ol", "pre", "ul"}), fmt.Sprintf("CanBeNested accepts %v; documented: ul ol li blockquote pre", ntags))
-
-	// ---- N1 visitor
-	ve := mustFunc(p, r, "N1", "(*"+converterPkg+".DomConverter).visitElementNodeHandler")
-	startEv := `iface.AddTag($0.builder,webdoc.NewTag(dom.TagName($1),webdoc.TagStart))`
-	if ve != nil {
-		opts := core.DecisionOpts{
-			Outcome: func(in ssa.Instruction, c *core.Canon) (string, bool) {
-				if ret, ok := in.(*ssa.Return); ok {
-					return "return " + c.Of(ret.Results[0]), true
-				}
-				return "", false
-			},
-			Event: func(in ssa.Instruction, c *core.Canon) (string, bool) {
-				if core.IsCallTo(in, "iface:AddTag") {
-					return c.Of(in.(*ssa.Call)), true
-				}
-				if st, ok := in.(*ssa.Store); ok {
-					a := c.Of(st.Addr)
-					if a == "&$1.Data" {
-						return "rename " + c.Of(st.Val), true
-					}
-				}
-				return "", false
-			},
-		}
-		paths, atoms, err := core.EnumerateDecisions(p, ve, opts)
-		if err != nil {
-			r.Undecided("N1", "visitElementNodeHandler", err.Error())
-		}
-		r.Stats["visitor_paths"] = len(paths)
-		nStart, nBadFalse, nUnguarded, nOtherTag := 0, 0, 0, 0
-		renameSeen := map[string]bool{}
-		var wit []string
-		for _, pa := range paths {
-			hasStart := strings.Contains(pa.Outcome, "webdoc.TagStart")
-			if strings.Contains(pa.Outcome, "iface.AddTag(") && !strings.Contains(pa.Outcome, startEv) {
-				nOtherTag++
-				wit = append(wit, pa.String())
-			}
-			tagTrue := ""
-			nestGuard := false
-			for _, l := range pa.Lits {
-				if m := reTagEq.FindStringSubmatch(l.Atom); m != nil && l.Val {
-					tagTrue = m[1]
-				}
-				if l.Atom == "webdoc.CanBeNested(dom.TagName($1))" && l.Val {
-					nestGuard = true
-				}
-			}
-			if hasStart {
-				nStart++
-				if !nestGuard {
-					nUnguarded++
-					wit = append(wit, "unguarded: "+pa.String())
-				}
-				if strings.HasSuffix(pa.Outcome, "return false") && (tagTrue == "" || nest[tagTrue]) {
-					nBadFalse++
-					wit = append(wit, "start tag then return false: "+pa.String())
-				}
-			}
-			if i := strings.Index(pa.Outcome, "rename "); i >= 0 {
-				to := strings.Trim(strings.SplitN(pa.Outcome[i+7:], ";", 2)[0], `" `)
-				to = strings.TrimSuffix(strings.SplitN(to, " =>", 2)[0], `"`)
-				ok := tagTrue != "" && !nest[tagTrue] && !nest[to]
-				rk := tagTrue + "->" + to
-				if !ok && !renameSeen[rk] {
-					renameSeen[rk] = true
-					r.Add("N1", "visitor renames an element across the nestable boundary", pa.Pos, false, fmt.Sprintf("tag %q renamed to %q: start and end placeholders would disagree", tagTrue, to), pa.String())
-				}
-			}
-		}
-		if len(wit) > 4 {
-			wit = wit[:4]
-		}
-		r.Add("N1", "visitor: a start placeholder exists", p.Pos(ve.Pos()), nStart > 0 && atoms["webdoc.CanBeNested(dom.TagName($1))"], fmt.Sprintf("%d of %d paths emit a start tag", nStart, len(paths)))
-		r.Add("N1", "visitor: start placeholder only under CanBeNested(TagName(node))", p.Pos(ve.Pos()), nUnguarded == 0, fmt.Sprintf("%d unguarded paths", nUnguarded), wit...)
-		r.Add("N1", "visitor: after a start placeholder a nestable element is always walked (return true)", p.Pos(ve.Pos()), nBadFalse == 0, fmt.Sprintf("%d paths emit a start tag and then return false without being conditioned on a non-nestable tag", nBadFalse), wit...)
-		r.Add("N1", "visitor: placeholders carry the node's tag name and are start tags", p.Pos(ve.Pos()), nOtherTag == 0, fmt.Sprintf("%d paths emit another kind of tag", nOtherTag), wit...)
-	}
-	// ---- N1 exit handler
-	ex := mustFunc(p, r, "N1", "(*"+converterPkg+".DomConverter).exitNodeHandler")
-	if ex != nil {
-		opts := core.DecisionOpts{Outcome: func(in ssa.Instruction, c *core.Canon) (string, bool) {
-			if _, ok := in.(*ssa.Return); ok {
-				return "done", true
-			}
-			return "", false
-		}, Event: callEvent(regexp.MustCompile(`AddTag|EndNode`))}
-		paths, atoms, err := core.EnumerateDecisions(p, ex, opts)
-		if err != nil {
-			r.Undecided("N1", "exitNodeHandler", err.Error())
-		}
-		spec := core.DecisionSpec{
-			Atoms: map[string]string{
-				"element":  q(`$1.Type == html.ElementNode`),
-				"nestable": q(`webdoc.CanBeNested(dom.TagName($1))`),
-			},
-			Rules: []core.SpecRule{
-				{Name: "nestable element: end placeholder, then EndNode", Guard: core.And(core.A("element"), core.A("nestable")),
-					Outcome: `iface.AddTag($0.builder,webdoc.NewTag(dom.TagName($1),webdoc.TagEnd)); iface.EndNode($0.builder) => done`},
-				{Name: "anything else: EndNode only", Guard: core.True(), Outcome: `iface.EndNode($0.builder) => done`},
-			},
-		}
-		core.CheckDecisionList(r, "N1", "exitNodeHandler", paths, atoms, spec)
 	}
 
 	// ---- N3 retainer
@@ -329,4 +217,126 @@ func C07(p *core.Program, r *core.Report) {
 			}
 		}
 	}
+}
+
+// checkPlaceholderBalance: start and end placeholders of nestable elements are emitted in pairs
+// (shared by C07-N1 and C01-T4: the retainer pops one start tag per end tag).
+func checkPlaceholderBalance(p *core.Program, r *core.Report, rule string) bool {
+	nest := nestableTags(p, r, rule)
+	if nest == nil {
+		return false
+	}
+	var ntags []string
+	for t := range nest {
+		ntags = append(ntags, t)
+	}
+	sort.Strings(ntags)
+	r.Add(rule, "nestable tag set", "", sameSet(ntags, []string{"blockquote", "li", "ol", "pre", "ul"}), fmt.Sprintf("CanBeNested accepts %v; documented: ul ol li blockquote pre", ntags))
+
+	// ---- N1 visitor
+	ve := mustFunc(p, r, rule, "(*"+converterPkg+".DomConverter).visitElementNodeHandler")
+	startEv := `iface.AddTag($0.builder,webdoc.NewTag(dom.TagName($1),webdoc.TagStart))`
+	if ve != nil {
+		opts := core.DecisionOpts{
+			Outcome: func(in ssa.Instruction, c *core.Canon) (string, bool) {
+				if ret, ok := in.(*ssa.Return); ok {
+					return "return " + c.Of(ret.Results[0]), true
+				}
+				return "", false
+			},
+			Event: func(in ssa.Instruction, c *core.Canon) (string, bool) {
+				if core.IsCallTo(in, "iface:AddTag") {
+					return c.Of(in.(*ssa.Call)), true
+				}
+				if st, ok := in.(*ssa.Store); ok {
+					a := c.Of(st.Addr)
+					if a == "&$1.Data" {
+						return "rename " + c.Of(st.Val), true
+					}
+				}
+				return "", false
+			},
+		}
+		paths, atoms, err := core.EnumerateDecisions(p, ve, opts)
+		if err != nil {
+			r.Undecided(rule, "visitElementNodeHandler", err.Error())
+		}
+		r.Stats["visitor_paths"] = len(paths)
+		nStart, nBadFalse, nUnguarded, nOtherTag := 0, 0, 0, 0
+		renameSeen := map[string]bool{}
+		var wit []string
+		for _, pa := range paths {
+			hasStart := strings.Contains(pa.Outcome, "webdoc.TagStart")
+			if strings.Contains(pa.Outcome, "iface.AddTag(") && !strings.Contains(pa.Outcome, startEv) {
+				nOtherTag++
+				wit = append(wit, pa.String())
+			}
+			tagTrue := ""
+			nestGuard := false
+			for _, l := range pa.Lits {
+				if m := reTagEq.FindStringSubmatch(l.Atom); m != nil && l.Val {
+					tagTrue = m[1]
+				}
+				if l.Atom == "webdoc.CanBeNested(dom.TagName($1))" && l.Val {
+					nestGuard = true
+				}
+			}
+			if hasStart {
+				nStart++
+				if !nestGuard {
+					nUnguarded++
+					wit = append(wit, "unguarded: "+pa.String())
+				}
+				if strings.HasSuffix(pa.Outcome, "return false") && (tagTrue == "" || nest[tagTrue]) {
+					nBadFalse++
+					wit = append(wit, "start tag then return false: "+pa.String())
+				}
+			}
+			if i := strings.Index(pa.Outcome, "rename "); i >= 0 {
+				to := strings.Trim(strings.SplitN(pa.Outcome[i+7:], ";", 2)[0], `" `)
+				to = strings.TrimSuffix(strings.SplitN(to, " =>", 2)[0], `"`)
+				ok := tagTrue != "" && !nest[tagTrue] && !nest[to]
+				rk := tagTrue + "->" + to
+				if !ok && !renameSeen[rk] {
+					renameSeen[rk] = true
+					r.Add(rule, "visitor renames an element across the nestable boundary", pa.Pos, false, fmt.Sprintf("tag %q renamed to %q: start and end placeholders would disagree", tagTrue, to), pa.String())
+				}
+			}
+		}
+		if len(wit) > 4 {
+			wit = wit[:4]
+		}
+		r.Add(rule, "visitor: a start placeholder exists", p.Pos(ve.Pos()), nStart > 0 && atoms["webdoc.CanBeNested(dom.TagName($1))"], fmt.Sprintf("%d of %d paths emit a start tag", nStart, len(paths)))
+		r.Add(rule, "visitor: start placeholder only under CanBeNested(TagName(node))", p.Pos(ve.Pos()), nUnguarded == 0, fmt.Sprintf("%d unguarded paths", nUnguarded), wit...)
+		r.Add(rule, "visitor: after a start placeholder a nestable element is always walked (return true)", p.Pos(ve.Pos()), nBadFalse == 0, fmt.Sprintf("%d paths emit a start tag and then return false without being conditioned on a non-nestable tag", nBadFalse), wit...)
+		r.Add(rule, "visitor: placeholders carry the node's tag name and are start tags", p.Pos(ve.Pos()), nOtherTag == 0, fmt.Sprintf("%d paths emit another kind of tag", nOtherTag), wit...)
+	}
+	// ---- N1 exit handler
+	ex := mustFunc(p, r, rule, "(*"+converterPkg+".DomConverter).exitNodeHandler")
+	if ex != nil {
+		opts := core.DecisionOpts{Outcome: func(in ssa.Instruction, c *core.Canon) (string, bool) {
+			if _, ok := in.(*ssa.Return); ok {
+				return "done", true
+			}
+			return "", false
+		}, Event: callEvent(regexp.MustCompile(`AddTag|EndNode`))}
+		paths, atoms, err := core.EnumerateDecisions(p, ex, opts)
+		if err != nil {
+			r.Undecided(rule, "exitNodeHandler", err.Error())
+		}
+		spec := core.DecisionSpec{
+			Atoms: map[string]string{
+				"element":  q(`$1.Type == html.ElementNode`),
+				"nestable": q(`webdoc.CanBeNested(dom.TagName($1))`),
+			},
+			Rules: []core.SpecRule{
+				{Name: "nestable element: end placeholder, then EndNode", Guard: core.And(core.A("element"), core.A("nestable")),
+					Outcome: `iface.AddTag($0.builder,webdoc.NewTag(dom.TagName($1),webdoc.TagEnd)); iface.EndNode($0.builder) => done`},
+				{Name: "anything else: EndNode only", Guard: core.True(), Outcome: `iface.EndNode($0.builder) => done`},
+			},
+		}
+		core.CheckDecisionList(r, rule, "exitNodeHandler", paths, atoms, spec)
+	}
+
+	return true
 }
